@@ -6,8 +6,8 @@ CONSTANTS
   ExportOn = TRUE
   SampleMod = 1
   TimeoutOdds = 5
-  MByz = {}
-  Ks = {0, 1, 2, 3, 4}
+  MByz = {1}
+  Ks = {0, 1, 2, 3}
 INIT MInit
 NEXT SNext
 INVARIANTS TypeOK Agreement CertifiedCommit Validity EmptyOnTimeout BackedCommit OneVotePerStep
